@@ -5,14 +5,21 @@
 //   variants: [ {"params": {...}, "api": "list"|"callback"} ]  scan configurations (each applied to both)
 //   ext:      [ [ {"name":.., "int"|"bool"|"float"|"bytes": ..}, .. ], .. ]  sets of external symbol
 //             redefinitions applied to both scanners (on clones) before scanning every input again
-//   small:    bool   also report per-type byte strings (none available without a hook: unused)
+//   user_modules: ["time" | "string" | "vmod"]  user modules given to the compiler with CompilerBuilder::add_module
+//             ("time" and "string" replace the built-in ones by name, with different behaviour) and given again
+//             to DeserializeParams::add_module on every reload.  For each one the rule set is expected to hold a
+//             rule `probe_<name>` that matches exactly when the user implementation is the one in use.
+//   reload_without_user_modules: bool   reload with DeserializeParams::default() only (expected outcome reported)
 //
 // Result JSON:
 //   {"compile_error": text} | {"to_bytes_error": text} | {"from_bytes_error": text} |
 //   {"file": hex of to_bytes(S), "listing": [...], "same": bool, "diffs": [first differences],
 //    "byte_identity": bool, "n_scans": n, "n_matches": total string matches seen on the original,
 //    "n_rule_matches": n, "algos": [matching_algo of every string], "define_results_same": bool}
-use boreal::compiler::ExternalValue;
+use std::collections::HashMap;
+
+use boreal::compiler::{CompilerBuilder, CompilerProfile, ExternalValue};
+use boreal::module::{EvalContext, Module, StaticValue, Type, Value as MValue};
 use boreal::scanner::{DeserializeParams, ScanEvent, ScanParams};
 use boreal::MetadataValue;
 use boreal::Scanner;
@@ -20,6 +27,112 @@ use serde_json::{json, Value};
 
 use bvh::scan::{add_rules, build_compiler, build_params, scan_with};
 use bvh::util::*;
+
+// ---------------------------------------------------------------------------------------- user modules
+/// Replaces the built-in `time` module by name: frozen clock.
+#[derive(Debug)]
+struct FrozenTime;
+impl Module for FrozenTime {
+    fn get_name(&self) -> &'static str {
+        "time"
+    }
+    fn get_static_values(&self) -> HashMap<&'static str, StaticValue> {
+        [
+            ("now", StaticValue::function(|_: &mut EvalContext, _: Vec<MValue>| Some(MValue::Integer(1000)), vec![], Type::Integer)),
+            ("epoch", StaticValue::Integer(1000)),
+        ]
+        .into()
+    }
+}
+
+/// Replaces the built-in `string` module by name: constant answers.
+#[derive(Debug)]
+struct FakeString;
+impl Module for FakeString {
+    fn get_name(&self) -> &'static str {
+        "string"
+    }
+    fn get_static_values(&self) -> HashMap<&'static str, StaticValue> {
+        [
+            ("to_int", StaticValue::function(|_: &mut EvalContext, _: Vec<MValue>| Some(MValue::Integer(99)),
+                vec![vec![Type::Bytes], vec![Type::Bytes, Type::Integer]], Type::Integer)),
+            ("length", StaticValue::function(|_: &mut EvalContext, _: Vec<MValue>| Some(MValue::Integer(7)),
+                vec![vec![Type::Bytes]], Type::Integer)),
+        ]
+        .into()
+    }
+}
+
+/// A module that is not built in.
+#[derive(Debug)]
+struct VMod;
+impl Module for VMod {
+    fn get_name(&self) -> &'static str {
+        "vmod"
+    }
+    fn get_static_values(&self) -> HashMap<&'static str, StaticValue> {
+        [
+            ("answer", StaticValue::function(|_: &mut EvalContext, _: Vec<MValue>| Some(MValue::Integer(42)), vec![], Type::Integer)),
+            ("sub", StaticValue::object([("twice", StaticValue::function(
+                |_: &mut EvalContext, a: Vec<MValue>| match a.into_iter().next() {
+                    Some(MValue::Integer(i)) => Some(MValue::Integer(i.wrapping_mul(2))),
+                    _ => None,
+                }, vec![vec![Type::Integer]], Type::Integer))])),
+        ]
+        .into()
+    }
+}
+
+fn user_modules(case: &Value) -> Vec<String> {
+    case["user_modules"]
+        .as_array()
+        .map(|a| a.iter().filter_map(|v| v.as_str().map(String::from)).collect())
+        .unwrap_or_default()
+}
+
+fn dparams(case: &Value) -> DeserializeParams {
+    let mut p = DeserializeParams::default();
+    for m in user_modules(case) {
+        match m.as_str() {
+            "time" => p.add_module(FrozenTime),
+            "string" => p.add_module(FakeString),
+            "vmod" => p.add_module(VMod),
+            o => panic!("unknown user module {o}"),
+        }
+    }
+    p
+}
+
+fn compiler_with_user_modules(case: &Value) -> boreal::Compiler {
+    let mut b = CompilerBuilder::new();
+    for m in user_modules(case) {
+        b = match m.as_str() {
+            "time" => b.add_module(FrozenTime),
+            "string" => b.add_module(FakeString),
+            "vmod" => b.add_module(VMod),
+            o => panic!("unknown user module {o}"),
+        };
+    }
+    if case["profile"].as_str() == Some("memory") {
+        b = b.profile(CompilerProfile::Memory);
+    }
+    let mut c = b.build();
+    if let Some(syms) = case["csymbols"].as_array() {
+        for s in syms {
+            let name = get_str(s, "name");
+            if let Some(v) = s["int"].as_i64() {
+                let _ = c.define_symbol(name, v);
+            } else if let Some(v) = s["bool"].as_bool() {
+                let _ = c.define_symbol(name, v);
+            } else if let Some(v) = s["float"].as_f64() {
+                let _ = c.define_symbol(name, v);
+            } else if let Some(v) = s["bytes"].as_str() {
+                let _ = c.define_symbol(name, unhex(v));
+            }
+        }
+    }
+    c
+}
 
 fn listing(s: &Scanner) -> Value {
     let mut out = Vec::new();
@@ -135,7 +248,7 @@ fn count_matches(v: &Value) -> (u64, u64) {
 }
 
 pub fn run(case: &Value) -> Value {
-    let mut c = build_compiler(case);
+    let mut c = if user_modules(case).is_empty() { build_compiler(case) } else { compiler_with_user_modules(case) };
     // statistics give the matching algorithm of every string (evidence only)
     let algos: std::sync::Arc<std::sync::Mutex<Vec<String>>> = Default::default();
     // NaN cannot be written in JSON: external float symbols listed here are defined as NaN
@@ -154,7 +267,7 @@ pub fn run(case: &Value) -> Value {
     if let Err(e) = s1.to_bytes(&mut file) {
         return json!({"to_bytes_error": format!("{e}")});
     }
-    let s2 = match Scanner::from_bytes_unchecked(&file, DeserializeParams::default()) {
+    let s2 = match Scanner::from_bytes_unchecked(&file, dparams(case)) {
         Ok(s) => s,
         Err(e) => return json!({"from_bytes_error": format!("{e}"), "file": hex(&file)}),
     };
@@ -170,7 +283,7 @@ pub fn run(case: &Value) -> Value {
     // trailing bytes are ignored by from_bytes_unchecked: a file followed by garbage loads the same scanner
     let mut file3 = file.clone();
     file3.extend_from_slice(b"trailing");
-    match Scanner::from_bytes_unchecked(&file3, DeserializeParams::default()) {
+    match Scanner::from_bytes_unchecked(&file3, dparams(case)) {
         Ok(s3) => {
             let mut f4 = Vec::new();
             if s3.to_bytes(&mut f4).is_err() || f4 != file {
@@ -235,7 +348,7 @@ pub fn run(case: &Value) -> Value {
             // a scanner with redefined symbols saves and reloads too
             let mut fa = Vec::new();
             if a.to_bytes(&mut fa).is_ok() {
-                match Scanner::from_bytes_unchecked(&fa, DeserializeParams::default()) {
+                match Scanner::from_bytes_unchecked(&fa, dparams(case)) {
                     Ok(a2) => compare(&a, &a2, &format!("resaved after redefinition set {k}"), &mut diffs),
                     Err(e) => diffs.push(json!({"what": "resave after redefinition does not load", "err": format!("{e}")})),
                 }
@@ -250,10 +363,35 @@ pub fn run(case: &Value) -> Value {
         sc.set_scan_params(p);
         let _ = algos;
     }
+    // which implementation the reloaded scanner uses for each user module: rule probe_<name> on an empty input
+    let mut user_impl_seen = serde_json::Map::new();
+    for (label, sc) in [("orig", &s1), ("reloaded", &s2)] {
+        let mut seen = serde_json::Map::new();
+        let mut p = sc.clone();
+        p.set_scan_params(ScanParams::default());
+        let res = match p.scan_mem(b"") {
+            Ok(r) => r,
+            Err((_, r)) => r,
+        };
+        for m in user_modules(case) {
+            let probe = format!("probe_{m}");
+            seen.insert(m.clone(), json!(res.rules.iter().any(|r| r.name == probe)));
+        }
+        user_impl_seen.insert(label.into(), Value::Object(seen));
+    }
+    let without = if get_bool(case, "reload_without_user_modules") {
+        match Scanner::from_bytes_unchecked(&file, DeserializeParams::default()) {
+            Ok(_) => json!("loaded"),
+            Err(e) => json!(format!("error: {e}")),
+        }
+    } else {
+        Value::Null
+    };
     let same = diffs.is_empty();
     json!({
         "file": hex(&file), "listing": l1, "same": same, "diffs": diffs, "byte_identity": byte_identity,
         "n_scans": n_scans, "n_rule_matches": n_rules, "n_matches": n_matches, "define_results_same": define_same,
+        "user_impl_seen": user_impl_seen, "reload_without_user_modules": without,
     })
 }
 
